@@ -22,6 +22,8 @@ pub enum Op {
     Close,
     /// add_subscriber(ScriptSub id); flags: gated (parks in on_notify on the sub gate), reads state
     AddSub { id: u32, gated: bool, reads: bool },
+    /// a direct subscriber that reads the state and panics inside on_notify for action `on`
+    AddPanicSub { id: u32, on: u32 },
     /// add the *same* subscriber object (id) to store `other` as well (C19)
     AddSharedSub { id: u32 },
     /// a subscriber of the current store that forwards each notification (action id + off) to store `to`
@@ -217,6 +219,7 @@ fn exec(ctx: &Arc<Ctx>, si: usize, op: &Op, local: &mut Local) {
                 read_from: if *reads { Some(Arc::downgrade(store)) } else { None },
                 forward_to: None,
                 pad: Default::default(),
+                panic_on: None,
             });
             // (a Weak keeps the allocation alive too: only where the program shares subscribers)
             if ctx.share {
@@ -225,8 +228,13 @@ fn exec(ctx: &Arc<Ctx>, si: usize, op: &Op, local: &mut Local) {
             let s = add_subscriber(store, sub, *id);
             ctx.subs.lock().unwrap().insert(*id, s);
         }
+        Op::AddPanicSub { id, on } => {
+            let sub = Arc::new(ScriptSub { id: *id, gate: None, read_from: Some(Arc::downgrade(store)), forward_to: None, pad: Default::default(), panic_on: Some(*on) });
+            let s = add_subscriber(store, sub, *id);
+            ctx.subs.lock().unwrap().insert(*id, s);
+        }
         Op::AddForwardSub { id, to, off } => {
-            let sub = Arc::new(ScriptSub { id: *id, gate: None, read_from: None, forward_to: Some((Arc::downgrade(&ctx.stores[*to]), *off)), pad: Default::default() });
+            let sub = Arc::new(ScriptSub { id: *id, gate: None, read_from: None, forward_to: Some((Arc::downgrade(&ctx.stores[*to]), *off)), pad: Default::default(), panic_on: None });
             let s = add_subscriber(store, sub, *id);
             ctx.subs.lock().unwrap().insert(*id, s);
         }
@@ -252,6 +260,7 @@ fn exec(ctx: &Arc<Ctx>, si: usize, op: &Op, local: &mut Local) {
                 read_from: if *reads { Some(Arc::downgrade(store)) } else { None },
                 forward_to: None,
                 pad: Default::default(),
+                panic_on: None,
             });
             let s = subscribed_with(store, *cap, *pol, sub, *id);
             ctx.subs.lock().unwrap().insert(*id, s);
